@@ -658,20 +658,34 @@ func TestC19(t *testing.T) {
 			c.Batch = op
 		} else {
 			op := model.Op{Kind: "BatchWrite"}
-			total := rapid.SampledFrom([]int{1, 2, 3, 5, 8, 12, 20, 21, 24, 25}).Draw(rt, "batchTotal")
+			total := rapid.SampledFrom([]int{1, 2, 3, 5, 8, 12, 20, 21, 22, 24, 25}).Draw(rt, "batchTotal")
 			left := total
+			// large batches mostly go to one table: truncation defects only show there
+			concentrate := total > 12 && rapid.IntRange(0, 3).Draw(rt, "concentrate") > 0
 			for gi, g := range gens {
 				if left <= 0 {
 					break
 				}
 				n := left
-				if gi < len(gens)-1 {
+				if gi < len(gens)-1 && !concentrate {
 					n = rapid.IntRange(0, left).Draw(rt, "perTable")
 				}
 				tb := model.TableBatch{Table: g.s.Table}
 				seen := map[string]bool{}
 				for i := 0; i < n; i++ {
 					it := g.item(rt)
+					if concentrate {
+						// many distinct keys: synthetic, unique per request
+						a := g.s.KeyAttrs()[len(g.s.KeyAttrs())-1]
+						switch g.s.Attrs[a] {
+						case "N":
+							it[a] = model.Num(fmt.Sprint(1000 + i))
+						case "B":
+							it[a] = model.Bin([]byte{byte(i + 1), 7})
+						default:
+							it[a] = model.Str(fmt.Sprintf("key-%02d", i))
+						}
+					}
 					k := model.Item{}
 					for _, a := range g.s.KeyAttrs() {
 						k[a] = it[a]
